@@ -175,8 +175,8 @@ def run(tier, seed):
         for lay in (1, 2, 3, 4):
             for (m, d) in LAYCOMBOS:
                 jobs.append({'id': 'h%d_%d_%d_L%d' % (fn, m, d, lay), 'harness': 'vh_hash', 'args': [fn, m, d, lay], 'summaries': SUMM, 'probes': [PROBE]})
-        for mode in (0, 1, 2):
-            for (m, d) in TWICE:
+        for mode in (0, 1, 2, 3, 4):
+            for (m, d) in (TWICE if mode < 4 else [(3, 33)]):
                 jobs.append({'id': 'tw%d_%d_%d_%d' % (fn, m, d, mode), 'harness': 'vh_hash_twice', 'args': [fn, m, d, mode], 'summaries': SUMM, 'probes': [PROBE]})
         for isnil in (0, 1):
             jobs.append({'id': 'nodst%d_%d' % (fn, isnil), 'harness': 'vh_hash_nodst', 'args': [fn, 3, isnil], 'summaries': SUMM})
@@ -202,8 +202,8 @@ def run(tier, seed):
             for (m, d) in LAYCOMBOS:
                 check_one(ck, R_['h%d_%d_%d_L%d' % (fn, m, d, lay)], fn, m, d, failures, lay)
     for fn in (0, 1):
-        for mode in (0, 1, 2):
-            for (m, d) in TWICE:
+        for mode in (0, 1, 2, 3, 4):
+            for (m, d) in (TWICE if mode < 4 else [(3, 33)]):
                 check_one(ck, R_['tw%d_%d_%d_%d' % (fn, m, d, mode)], fn, m, d, failures, lay=0, label='second-call%d' % mode)
     for fn in (0, 1):
         for isnil in (0, 1):
